@@ -1211,7 +1211,7 @@ func (e *Engine) next(st *State, fr *Frame, x *ssa.Next) Value {
 		return TupleV{[]Value{e.ts.True, k, mo.vals[i]}}
 	}
 	st.heap[itv.obj] = it
-	return TupleV{[]Value{e.ts.False, e.zero(tup.At(1).Type()), e.zero(tup.At(2).Type())}}
+	return TupleV{[]Value{e.ts.False, e.zeroOrDummy(tup.At(1).Type()), e.zeroOrDummy(tup.At(2).Type())}}
 }
 
 // ---------- channels ----------
@@ -1460,3 +1460,11 @@ func (e *Engine) appendElems(st *State, s SliceV, add []Value, et types.Type) Sl
 
 var _ = math.MaxInt
 var _ = strings.Contains
+
+// zeroOrDummy: go/ssa gives unused range variables the invalid type.
+func (e *Engine) zeroOrDummy(t types.Type) Value {
+	if b, ok := t.(*types.Basic); ok && b.Kind() == types.Invalid {
+		return e.ts.False
+	}
+	return e.zero(t)
+}
